@@ -242,6 +242,9 @@ class Ann(object):
         self.crlfpath = os.path.join(self.dir, "b.gff")
         with open(self.crlfpath, "w", newline="") as fh:       # CRLF line ends, no final newline
             fh.write("\r\n".join(body))
+        self.crlfgzpath = os.path.join(self.dir, "b.gff.gz")
+        with gzip.open(self.crlfgzpath, "wb") as fh:
+            fh.write("\r\n".join(body).encode("utf-8"))
         self.indented = "\n" + "".join(("        " + l if l else "") + "\n" for l in body) + "    "
         self._db = None
         self.with_db = with_db
@@ -293,6 +296,10 @@ def _f_gz(a, mk):
 
 def _f_crlf(a, mk):
     return a.crlfpath, {}, None
+
+
+def _f_crlfgz(a, mk):
+    return a.crlfgzpath, {}, None
 
 
 def _f_string(a, mk):
@@ -372,6 +379,7 @@ FORMS = collections.OrderedDict([
     ("path", ("file", _f_path)),
     ("gzip path", ("file", _f_gz)),
     ("path (CRLF, no final newline)", ("file", _f_crlf)),
+    ("gzip path (CRLF, no final newline)", ("file", _f_crlfgz)),
     ("string", ("file", _f_string)),
     ("string (indented, dedent)", ("file", _f_indented)),
     ("list", ("feature", _f_list)),
@@ -494,7 +502,7 @@ def db_annotations(U, quick_shapes, thorough_shapes):
             h = h[::-1]
         elif order == "shuf":
             U.rng.shuffle(h)
-        yield "gff3", place(h)
+        yield "gff3", place(h), order
 
 
 # ======================================================================================= database oracle
@@ -512,18 +520,16 @@ def oracle_ids(recs):
 
 
 def oracle_db(recs, ids):
-    """GFF3: rows in arrival order, relations = (ancestor, descendant, path length) over Parent links of
-    the stored lines (path lengths 1..3)"""
+    """GFF3: rows in arrival order; relations: (p, c, 1) for every Parent value p of a stored line c (p need not be
+    stored), (g, c, 2) for every stored g with g -> m -> c (the hierarchies used here have three ranks)"""
     rows = [(i, rec_key(r)) for i, r in zip(ids, recs)]
     l1 = set()
     for i, r in zip(ids, recs):
         for p in r["attrs"].get("Parent", []):
             l1.add((p, i))
     rel = set((p, c, 1) for p, c in l1)
-    cur = set(l1)
-    for lv in (2, 3):
-        cur = set((p, c) for (p, m) in l1 for (m2, c) in cur if m == m2)
-        rel |= set((p, c, lv) for p, c in cur)
+    stored = set(ids)
+    rel |= set((g, c, 2) for (g, m) in l1 for (m2, c) in l1 if m == m2 and g in stored)
     return rows, sorted(rel)
 
 
@@ -534,7 +540,7 @@ def real_db(db):
 
 
 def jrows(rows):
-    return [[i, list(map(str, k[:8])), [list(map(str, kv)) for kv in k[8]]] for i, k in rows]
+    return [[i, "\t".join(map(str, k[:8])), ";".join("%s=%s" % (a, ",".join(v)) for a, v in k[8])] for i, k in rows]
 
 
 def jkeys(keys):
@@ -621,7 +627,8 @@ def unit_sequence(U):
         # ---- known defect F11, reported separately
         tfails, tcases = [], 0
         specials = [("dot coordinates", "chr1\tsrc\tregion\t.\t.\t.\t+\t.\tID=d1;Name=x"),
-                    ("zero-length feature (end == start-1)", "chr1\tsrc\tregion\t250\t249\t.\t+\t.\tID=z1;Name=x")]
+                    ("zero-length feature (end == start-1)", "chr1\tsrc\tregion\t250\t249\t.\t+\t.\tID=z1;Name=x"),
+                    ("negative-length feature (end < start-1)", "chr1\tsrc\tregion\t250\t240\t.\t+\t.\tID=n1;Name=x")]
         for label, special in specials:
             for pos in (0, 1, 2):
                 lines = [seq_line("g", 0), seq_line("r", 3)]
@@ -654,7 +661,7 @@ def unit_sequence(U):
     L = 3 if U.thorough else 2
     scope = ("GFF3: all sequences of length 0..%d over 5 line kinds (gene, mRNA, exon without ID, CDS with two parents, "
              "single-attribute region) + %d seeded random ones of length %d..%d, GTF: %d exon/CDS/start_codon files; files carry a "
-             "directive, a comment and a blank line; x %d input forms (path, gzip, CRLF/no final newline, string, indented string, "
+             "directive, a comment and a blank line; x %d input forms (path, gzip, CRLF/no final newline plain and gzip, string, indented string, "
              "list, tuple, re-iterable, generator function/expression, iter(list), map, chain, custom __next__ object, "
              "ready-made DataIterator over path/gzip/string/list/one-shot, FeatureDB) x checklines 0..n+2 x transform in "
              "{none, drop (8 false values), modify in place, fresh object, drop all}; force_dialect_check / explicit dialect at "
@@ -668,8 +675,8 @@ def unit_sequence(U):
                      "the look-ahead window (_peek) == the first min(checklines+1, n) untransformed items, and exactly that many items were pulled from a counting one-shot source",
                      "same cases as C13.bounded.sequence, automatic dialect mode", pcases, pfails, distinct=pcases)
     U.bounded_result("C13.bounded.transform_truthiness",
-                     "a transform returning the (true) Feature object it was given keeps the feature also when the feature has '.' coordinates or zero length (known defect F11)",
-                     "2 special lines x 3 positions in a 3-line file x 7 forms x checklines {0, 1, 5}, identity transform",
+                     "a transform returning the (true) Feature object it was given keeps the feature also when the feature has '.' coordinates, zero or negative length (defect F11)",
+                     "3 special lines x 3 positions in a 3-line file x 7 forms x checklines {0, 1, 5}, identity transform",
                      tcases, tfails, distinct=tcases)
 
 
@@ -714,7 +721,7 @@ def unit_create_db(U):
 
     with scratch() as (work, leak):
         nann = 0
-        for fmt, lines in db_annotations(U, CREATE_Q, CREATE_T):
+        for fmt, lines, _order in db_annotations(U, CREATE_Q, CREATE_T):
             nann += 1
             ann = Ann(lines, fmt, work)
             n = len(lines)
@@ -808,7 +815,7 @@ def unit_update(U):
 
     with scratch() as (work, leak):
         nann = 0
-        for fmt, lines in db_annotations(U, UPDATE_Q, UPDATE_T):
+        for fmt, lines, order in db_annotations(U, UPDATE_Q, UPDATE_T):
             nann += 1
             n = len(lines)
             splits = sorted(set([1, n // 2, n - 1, n] if U.thorough else [1, n - 2, n]))
@@ -826,10 +833,12 @@ def unit_update(U):
                         continue
                     allrecs = brecs + kept
                     erows, erel = oracle_db(allrecs, oracle_ids(allrecs))
+                    # Which level-2 rows update() adds when a parent arrives after its stored child is C10's business:
+                    # the relation oracle is used for top-down files (ancestors always stored first); otherwise the
+                    # relations must be the same for all forms and checklines.
+                    refrel = None
                     for c in range(0, m + 3):
                         for fname, (family, _) in FORMS.items():
-                            if family == "db" and m == 0:
-                                pass
                             if not U.thorough and m > 3 and c not in (0, 1, m - 1, m, m + 2) and family != "oneshot":
                                 continue
                             cases += 1
@@ -841,7 +850,11 @@ def unit_update(U):
                             except Exception as e:
                                 fail(case, exp, "exception %r" % (e,))
                                 continue
-                            if rows != erows or rel != erel:
+                            if order != "top":
+                                if refrel is None:
+                                    refrel = (fname, c, rel)
+                                exp = {"features": jrows(erows), "relations (as for form %s, checklines %d)" % refrel[:2]: refrel[2]}
+                            if rows != erows or rel != (erel if order == "top" else refrel[2]):
                                 fail(case, exp, {"features": jrows(rows), "relations": rel})
                             elif T.name != "none" and m and log != [rec_key(r) for r in ann.recs]:
                                 fail(case, {"transform called once per input item, in order": jkeys([rec_key(r) for r in ann.recs])}, {"calls": jkeys(log)})
@@ -856,7 +869,7 @@ def unit_update(U):
 
 # ======================================================================================= unit 4: inspect
 LOOK = ("featuretype", "chrom", "attribute_keys", "feature_count", "strand", "source", "start", "stop")
-INSPECT_FORMS = ("path", "gzip path", "path (CRLF, no final newline)", "list", "tuple", "re-iterable object", "generator function", "generator expression",
+INSPECT_FORMS = ("path", "gzip path", "path (CRLF, no final newline)", "gzip path (CRLF, no final newline)", "list", "tuple", "re-iterable object", "generator function", "generator expression",
                  "iter(list)", "map object", "itertools.chain", "custom __next__ object", "DataIterator(path)", "DataIterator(list)",
                  "DataIterator(custom __next__ object)", "FeatureDB")
 
